@@ -327,7 +327,7 @@ func (g *guardEnv) conditionsFlag(phi *ssa.Phi, k elemKey, at *ssa.BasicBlock) b
 	// inner loop header: the block that tests the range index of the If list and dominates the call
 	var header *ssa.BasicBlock
 	for b := cond.Block().Idom(); b != nil; b = b.Idom() {
-		if cyc[b] && reachableBlocks(cond.Block().Succs, nil)[b] {
+		if cyc[b] && reachableAfter(cond.Block(), nil)[b] {
 			if _, ok := b.Instrs[len(b.Instrs)-1].(*ssa.If); ok {
 				header = b
 				break
@@ -759,7 +759,7 @@ func universalCallScan(p *Program, h *ssa.Function, list, arg *ssa.Parameter) bo
 	// the loop header
 	var header *ssa.BasicBlock
 	for b := cond.Block().Idom(); b != nil; b = b.Idom() {
-		if cyc[b] && reachableBlocks(cond.Block().Succs, nil)[b] {
+		if cyc[b] && reachableAfter(cond.Block(), nil)[b] {
 			if _, ok := b.Instrs[len(b.Instrs)-1].(*ssa.If); ok {
 				header = b
 				break
